@@ -182,6 +182,86 @@ def bridgeReqs (o : Op) : Bitcoin.BridgeReqs :=
     minDeposit := (o.list "min").map natOf }
 
 /-! ### the step function -/
+
+/-- how a transaction's outcome is applied: baseapp writes the transaction's cached store only when
+    the handler answered without error or panic -/
+def commitTx {α} (w : W) (r : Outcome α) (f : α → W) : W × String :=
+  match r with
+  | .ok a => (f a, "=> ok")
+  | _ => (w, "=> " ++ res r)
+
+/-- the message handlers (each runs inside one transaction) -/
+def txStep (w : W) (o : Op) : W × String :=
+  let rc := relCrypto w.o
+  let bc := btcCrypto w.o
+  match o.kind with
+  | "tx.hashes" =>
+    let r := Bitcoin.newBlockHashes rc w.chainId w.rel w.btc (voteOf o) (hasVote o) (o.nat "start") (o.bytesList "hashes")
+    commitTx w r (fun (rel, btc) => { w with rel := rel, btc := btc })
+  | "tx.pubkey" =>
+    let r := Bitcoin.newPubkey rc w.chainId w.rel w.btc (voteOf o) (hasVote o) (pubKeyOf (o.str "kind") (o.bytes "key"))
+    commitTx w r (fun (rel, btc) => { w with rel := rel, btc := btc })
+  | "tx.deposits" =>
+    let m : Bitcoin.NewDepositsMsg :=
+      { proposer := o.str "proposer"
+        headers := (o.list "headers").map (fun x => let f := flds x; (natOf f[0]!, bytesOf f[1]!))
+        deposits := (o.list "deps").map (fun x => let f := flds x;
+          { version := natOf f[0]!, blockNumber := natOf f[1]!, txIndex := natOf f[2]!, noWitnessTx := bytesOf f[3]!,
+            outputIndex := natOf f[4]!, proof := bytesOf f[5]!, evm := bytesOf f[6]!, pubkey := pubKeyOf f[7]! (bytesOf f[8]!) }) }
+    let r := Bitcoin.newDeposits bc w.rel w.btc m
+    commitTx w r (fun (rel, btc) => { w with rel := rel, btc := btc })
+  | "tx.process" =>
+    let r := Bitcoin.processWithdrawal bc rc w.chainId w.rel w.btc (voteOf o) (hasVote o) (o.natList "ids") (o.bytes "tx") (o.nat "fee")
+    commitTx w r (fun (rel, btc) => { w with rel := rel, btc := btc })
+  | "tx.replace" =>
+    let r := Bitcoin.replaceWithdrawal bc rc w.chainId w.rel w.btc (voteOf o) (hasVote o) (o.nat "pid") (o.bytes "tx") (o.nat "fee")
+    commitTx w r (fun (rel, btc) => { w with rel := rel, btc := btc })
+  | "tx.finalize" =>
+    let m : Bitcoin.FinalizeMsg := { proposer := o.str "proposer", pid := o.nat "pid", txid := o.bytes "txid", blockNumber := o.nat "block",
+                                     txIndex := o.nat "txindex", proof := o.bytes "proof", header := o.bytes "header" }
+    let r := Bitcoin.finalizeWithdrawal bc w.rel w.btc m
+    commitTx w r (fun (rel, btc) => { w with rel := rel, btc := btc })
+  | "tx.approve" =>
+    let r := Bitcoin.approveCancellation w.rel w.btc (o.str "proposer") (o.natList "ids")
+    commitTx w r (fun (rel, btc) => { w with rel := rel, btc := btc })
+  | "tx.consolidate" =>
+    let r := Bitcoin.newConsolidation bc rc w.chainId w.rel w.btc (voteOf o) (hasVote o) (o.bytes "tx")
+    commitTx w r (fun (rel, btc) => { w with rel := rel, btc := btc })
+  | "tx.newvoter" =>
+    let m : Relayer.NewVoterMsg := { proposer := o.str "proposer", blsKey := o.bytes "blskey", blsProof := o.bytes "blsproof",
+                                     txKey := o.bytes "txkey", txProof := o.bytes "txproof" }
+    let r := Relayer.newVoter rc w.chainId w.rel m (hasAccountStr w)
+    commitTx w r (fun (rel, newAcc) =>
+      let accs := match newAcc with
+        | some a => w.accounts ++ [rawOfAddr w a]
+        | none => w.accounts
+      { w with rel := rel, accounts := accs })
+  | "tx.accept" =>
+    let r := Relayer.acceptProposer w.rel (o.str "proposer") (o.nat "epoch") (o.int "time")
+    commitTx w r (fun rel => { w with rel := rel })
+  | k => (w, s!"=> unknown-op {k}")
+
+/-- execution-layer request lists (applied inside the MsgNewEthBlock transaction) -/
+def reqStep (w : W) (o : Op) : W × String :=
+  let rc := relCrypto w.o
+  let bc := btcCrypto w.o
+  match o.kind with
+  | "req.relayer" =>
+    let adds := (o.list "adds").map (fun x => let f := flds x; ({ voter := fitLeft 20 (bytesOf f[0]!), keyHash := fitLeft 32 (bytesOf f[1]!) } : Relayer.AddReq))
+    let removes := (o.list "removes").map (fun x => fitLeft 20 (bytesOf x))
+    ({ w with rel := Relayer.processRequest rc w.rel (o.nat "height") adds removes }, "=> ok")
+  | "req.bridge" =>
+    let r := Bitcoin.processBridgeRequest bc w.btc (bridgeReqs o)
+    match r with
+    | .ok btc => ({ w with btc := btc }, "=> ok")
+    | _ => (w, "=> " ++ res r)
+  | "req.lock" =>
+    let r := Locking.processRequests rc.hash160 (fun a => w.accounts.contains a) w.lock (o.int "height") (o.int "time") (lockReqs o)
+    match r with
+    | .ok (lk, accs) => ({ w with lock := lk, accounts := w.accounts ++ accs }, "=> ok")
+    | _ => (w, "=> " ++ res r)
+  | k => (w, s!"=> unknown-op {k}")
+
 def step (w : W) (o : Op) : W × String :=
   let rc := relCrypto w.o
   let bc := btcCrypto w.o
@@ -234,86 +314,6 @@ def step (w : W) (o : Op) : W × String :=
   | "dump.btc" => (w, "=> " ++ dumpBtc w.btc)
   | "dump.lock" => (w, "=> " ++ dumpLock w.lock)
   | "dump.acc" => (w, "=> acc " ++ lst ((sortBytes w.accounts).map toHex))
-  -- messages ------------------------------------------------------------------------------------
-  | "tx.hashes" =>
-    let r := Bitcoin.newBlockHashes rc w.chainId w.rel w.btc (voteOf o) (hasVote o) (o.nat "start") (o.bytesList "hashes")
-    match r with
-    | .ok (rel, btc) => ({ w with rel := rel, btc := btc }, "=> ok")
-    | _ => (w, "=> " ++ res r)
-  | "tx.pubkey" =>
-    let r := Bitcoin.newPubkey rc w.chainId w.rel w.btc (voteOf o) (hasVote o) (pubKeyOf (o.str "kind") (o.bytes "key"))
-    match r with
-    | .ok (rel, btc) => ({ w with rel := rel, btc := btc }, "=> ok")
-    | _ => (w, "=> " ++ res r)
-  | "tx.deposits" =>
-    let m : Bitcoin.NewDepositsMsg :=
-      { proposer := o.str "proposer"
-        headers := (o.list "headers").map (fun x => let f := flds x; (natOf f[0]!, bytesOf f[1]!))
-        deposits := (o.list "deps").map (fun x => let f := flds x;
-          { version := natOf f[0]!, blockNumber := natOf f[1]!, txIndex := natOf f[2]!, noWitnessTx := bytesOf f[3]!,
-            outputIndex := natOf f[4]!, proof := bytesOf f[5]!, evm := bytesOf f[6]!, pubkey := pubKeyOf f[7]! (bytesOf f[8]!) }) }
-    let r := Bitcoin.newDeposits bc w.rel w.btc m
-    match r with
-    | .ok (rel, btc) => ({ w with rel := rel, btc := btc }, "=> ok")
-    | _ => (w, "=> " ++ res r)
-  | "tx.process" =>
-    let r := Bitcoin.processWithdrawal bc rc w.chainId w.rel w.btc (voteOf o) (hasVote o) (o.natList "ids") (o.bytes "tx") (o.nat "fee")
-    match r with
-    | .ok (rel, btc) => ({ w with rel := rel, btc := btc }, "=> ok")
-    | _ => (w, "=> " ++ res r)
-  | "tx.replace" =>
-    let r := Bitcoin.replaceWithdrawal bc rc w.chainId w.rel w.btc (voteOf o) (hasVote o) (o.nat "pid") (o.bytes "tx") (o.nat "fee")
-    match r with
-    | .ok (rel, btc) => ({ w with rel := rel, btc := btc }, "=> ok")
-    | _ => (w, "=> " ++ res r)
-  | "tx.finalize" =>
-    let m : Bitcoin.FinalizeMsg := { proposer := o.str "proposer", pid := o.nat "pid", txid := o.bytes "txid", blockNumber := o.nat "block",
-                                     txIndex := o.nat "txindex", proof := o.bytes "proof", header := o.bytes "header" }
-    let r := Bitcoin.finalizeWithdrawal bc w.rel w.btc m
-    match r with
-    | .ok (rel, btc) => ({ w with rel := rel, btc := btc }, "=> ok")
-    | _ => (w, "=> " ++ res r)
-  | "tx.approve" =>
-    let r := Bitcoin.approveCancellation w.rel w.btc (o.str "proposer") (o.natList "ids")
-    match r with
-    | .ok (rel, btc) => ({ w with rel := rel, btc := btc }, "=> ok")
-    | _ => (w, "=> " ++ res r)
-  | "tx.consolidate" =>
-    let r := Bitcoin.newConsolidation bc rc w.chainId w.rel w.btc (voteOf o) (hasVote o) (o.bytes "tx")
-    match r with
-    | .ok (rel, btc) => ({ w with rel := rel, btc := btc }, "=> ok")
-    | _ => (w, "=> " ++ res r)
-  | "tx.newvoter" =>
-    let m : Relayer.NewVoterMsg := { proposer := o.str "proposer", blsKey := o.bytes "blskey", blsProof := o.bytes "blsproof",
-                                     txKey := o.bytes "txkey", txProof := o.bytes "txproof" }
-    let r := Relayer.newVoter rc w.chainId w.rel m (hasAccountStr w)
-    match r with
-    | .ok (rel, newAcc) =>
-      let accs := match newAcc with
-        | some a => w.accounts ++ [rawOfAddr w a]
-        | none => w.accounts
-      ({ w with rel := rel, accounts := accs }, "=> ok")
-    | _ => (w, "=> " ++ res r)
-  | "tx.accept" =>
-    let r := Relayer.acceptProposer w.rel (o.str "proposer") (o.nat "epoch") (o.int "time")
-    match r with
-    | .ok rel => ({ w with rel := rel }, "=> ok")
-    | _ => (w, "=> " ++ res r)
-  -- requests ------------------------------------------------------------------------------------
-  | "req.relayer" =>
-    let adds := (o.list "adds").map (fun x => let f := flds x; ({ voter := fitLeft 20 (bytesOf f[0]!), keyHash := fitLeft 32 (bytesOf f[1]!) } : Relayer.AddReq))
-    let removes := (o.list "removes").map (fun x => fitLeft 20 (bytesOf x))
-    ({ w with rel := Relayer.processRequest rc w.rel (o.nat "height") adds removes }, "=> ok")
-  | "req.bridge" =>
-    let r := Bitcoin.processBridgeRequest bc w.btc (bridgeReqs o)
-    match r with
-    | .ok btc => ({ w with btc := btc }, "=> ok")
-    | _ => (w, "=> " ++ res r)
-  | "req.lock" =>
-    let r := Locking.processRequests rc.hash160 (fun a => w.accounts.contains a) w.lock (o.int "height") (o.int "time") (lockReqs o)
-    match r with
-    | .ok (lk, accs) => ({ w with lock := lk, accounts := w.accounts ++ accs }, "=> ok")
-    | _ => (w, "=> " ++ res r)
   -- hooks ---------------------------------------------------------------------------------------
   | "hook.rel.end" =>
     let r := Relayer.endBlocker rc w.rel (o.int "time")
@@ -377,6 +377,6 @@ def step (w : W) (o : Op) : W × String :=
     let r := Merkle.verify Sha256.dsha256 (o.bytes "txid") (o.bytes "root") (o.bytes "proof") (o.nat "index")
     (w, s!"=> {boolStr r}")
   | "sha256" => (w, s!"=> {toHex (Sha256.sha256 (o.bytes "data"))}")
-  | k => (w, s!"=> unknown-op {k}")
+  | k => if k.startsWith "tx." then txStep w o else if k.startsWith "req." then reqStep w o else (w, s!"=> unknown-op {k}")
 
 end Goat.World
